@@ -84,6 +84,12 @@ let () =
               String.concat "," (List.map (fun ((k, f), v) ->
                 hex_of_bytes k ^ ":" ^ dec_of_n f ^ ":" ^ (match v with Some v -> hex_of_bytes v | None -> "nil")) l)
           | "sget" -> (match x_snap_get !st (bytes_of_hex (a 0)) with Some v -> "v " ^ hex_of_bytes v | None -> "nf")
+          | "sbget" ->
+              let keys = List.map bytes_of_hex (String.split_on_char ',' (a 0)) in
+              let (handed, r) = x_snap_batch_get !snap !st keys in
+              let hs = if handed = [] then "none" else String.concat "," (List.map hex_of_bytes handed) in
+              let hs = if !target = "txn" then "?" else hs in
+              "handed=" ^ hs ^ "|res=" ^ kvs_string r
           | "siter" -> kvs_string (x_snap_iter !st (bytes_of_hex (a 0)) (bytes_of_hex (a 1)))
           | "sriter" -> kvs_string (x_snap_iter_rev !st (bytes_of_hex (a 0)) (bytes_of_hex (a 1)))
           | "hist" -> (match x_history !st (bytes_of_hex (a 0)) with
